@@ -3,6 +3,7 @@
 (* Trace validation for the project/module-level properties:               *)
 (*   Discovery (C03)  Project!C03_Holds(files, wrappers)                   *)
 (*   Reach     (C07)  Project!C07_Holds(types, roots, declared)            *)
+(*   Viz       (X01)  Project!X01_Holds: dependency-graph.dot vs types     *)
 (*   Modules   (C02)  Output!Closed, NoDuplicateExports, IndexMatches      *)
 (*   Order     (C09)  Output!DefinedBeforeUse on the Zod types module      *)
 (*   Listeners (C12)  one listener per distinct event name, subscribed to  *)
@@ -42,6 +43,7 @@ Judge(e) ==
                                   /\ O!IndexMatches(e.reexports, e.written)
       [] e.event = "Order"     -> O!DefinedBeforeUse(e.module)
       [] e.event = "Listeners" -> ListenersOk(e)
+      [] e.event = "Viz"       -> P!X01_Holds(e.types, e.roots, e.tnodes, e.tedges, e.cedges)
       [] OTHER -> FALSE
 
 Why(e) ==
@@ -61,6 +63,13 @@ Why(e) ==
             <<"required", P!EventNames(e.emits), "subscribed", {e.listeners[i].subscribed : i \in DOMAIN e.listeners},
               "listeners", Len(e.listeners), "illegal", {e.listeners[i].fn : i \in {j \in DOMAIN e.listeners : ~e.listeners[j].legal}},
               "eventsWritten", e.eventsWritten>>
+      [] e.event = "Viz" ->
+            LET R == P!Reachable(e.types, e.roots)
+                N == ASet(e.tnodes) IN
+            <<"nodes missing", R \ N, "nodes extra", N \ P!ReachableAll(e.types, e.roots),
+              "edges missing", {x \in N \X N : x[2] \in P!AllDeps(e.types, x[1])} \ ASet(e.tedges),
+              "edges extra", {x \in ASet(e.tedges) : x[2] \in N /\ ~(x[1] \in N /\ x[2] \in P!AllDeps(e.types, x[1]))},
+              "command edges to undrawn", {x \in ASet(e.cedges) : x[2] \notin N}>>
       [] OTHER -> <<"unknown event">>
 
 TraceInit == l = 1
